@@ -1029,34 +1029,58 @@ class SymDict:
 
 class PointOracle:
     """
-    Solver stub for read-out code: the first solve() 'returns' an arbitrary feasible point
-    of the captured model (its variable values are the model's own z3 variables, so every
-    getValue() on a binary forks the path); a second solve() reports infeasibility.
+    Solver stub for read-out code: each of the first `points` solve() calls 'returns' an
+    arbitrary feasible point of the captured model as it stands at that moment (including
+    the exclusion cuts added meanwhile).  The values of point k are fresh z3 copies of the
+    model's variables (point 1: the variables themselves), so every getValue() on a binary
+    forks the path; the next solve() reports infeasibility.
     `extra(model)` may add assumptions that bound the explored assignments.
     """
 
-    def __init__(self, eng, extra=None):
-        self.eng, self.extra = eng, extra
+    def __init__(self, eng, extra=None, points=1):
+        self.eng, self.extra, self.points = eng, extra, points
         self.calls = {}
+        self.subs = {}
+
+    def _sub(self, model, n=None):
+        n = n or self.calls.get(id(model), 1)
+        if n == 1:
+            return None
+        key = (id(model), n)
+        if key not in self.subs:
+            out = []
+            for v in model.vars:
+                nm = f"{v.zv}@{n}"
+                f = z3.Bool(nm) if v.kind == "B" else z3.Int(nm) if v.kind == "I" \
+                    else z3.Real(nm)
+                out.append((v.zv, f))
+            self.subs[key] = out
+        # variables created after the first use (none in aldy's read-out loops)
+        return self.subs[key]
+
+    def at(self, model, t, n=None):
+        """term t over the variables of point n (default: the current point)."""
+        sub = self._sub(model, n)
+        return t if sub is None else z3.substitute(t, sub)
 
     def solve(self, model):
         import aldy.lpinterface as lpi
 
         n = self.calls.get(id(model), 0) + 1
         self.calls[id(model)] = n
-        if n > 1:
-            raise lpi.NoSolutionsError("oracle: one point only")
-        self.eng.assume(z3.And(model.z3_constraints()))
+        if n > self.points:
+            raise lpi.NoSolutionsError(f"oracle: {self.points} point(s) only")
+        self.eng.assume(self.at(model, z3.And(model.z3_constraints())))
         if self.extra is not None:
             for c in self.extra(model):
-                self.eng.assume(c)
-        return "optimal", S(model.obj_z3())
+                self.eng.assume(self.at(model, c))
+        return "optimal", S(self.at(model, model.obj_z3()))
 
     def value(self, model, var):
         if isinstance(var, Var):
             if var.kind == "B":
-                return SB(var.zv)
-            return S(var.num())
+                return SB(self.at(model, var.zv))
+            return S(self.at(model, var.num()))
         if isinstance(var, L):
-            return S(var.z3())
+            return S(self.at(model, var.z3()))
         return var
